@@ -18,7 +18,8 @@ TRUSTED_BASE = [
     "Coq 8.16.1 kernel; no axioms (Print Assumptions: closed)",
     "spec/PcfSpec.v: the Parsing Canonical Form and the fullname rules written from the Avro specification on the JSON AST (no graph); extracted as the oracle for the crate's canonical form text (hook H1)",
     "hand-written models Parse.v (raw.rs, parsing/mod.rs, check_for_cycles.rs) and CanonicalForm.v tied by the correspondence run: node vector, canonical form text and fingerprint, model vs crate, on generated documents in every namespace spelling",
-    "serde_json (text -> AST) is outside the model; Python's json module (order / duplicates / number tokens preserved) provides the AST for the model side",
+    "serde_json (text -> AST) is outside the model; Python's json module (order / duplicates / number tokens preserved) provides the AST for the model side; "
+    "number tokens in free positions (defaults, custom attributes) reach the model in the spelling serde_json prints for the number it read (docgen.serde_num, Python-side)",
 ]
 ASSUMPTIONS = [
     "proved: for every document valid per the specification (definition before use) parsing succeeds and canonical_form(parse j) = PcfSpec.pcf j, i.e. every reference resolves to the type the specification designates, field order / symbols / sizes preserved (C07_resolve); unknown reference, duplicate fullname, missing attribute, unconditional record cycle are errors; the cycle check is exact",
@@ -143,7 +144,8 @@ def run(ctx):
                             ref_prob=0.5 if fw else 0.2)
             nodes = g.build()
         for attempt in range(4):
-            dg = D.DocGen(rng, nodes, forward=fw)
+            # free positions (doc, defaults, custom attributes): plain, or strings / numbers that are delicate to copy (reported JSON)
+            dg = D.DocGen(rng, nodes, forward=fw, rich=rng.choice([0.0, 0.0, 0.6]))
             doc = dg.gen(0, None)
             if set(dg.occ) == dg.defined:
                 break
@@ -168,18 +170,56 @@ def run(ctx):
     for _ in range(n // 6):
         doc, unconditional = D.cycle_doc(rng)
         cases.append(("record-cycle" if unconditional else "valid-doc", None, doc, None, False))
+    # the same, over every ARRANGEMENT of the definitions: the records of the cycle also occur next to one another (branches of a root
+    # union, sibling fields of a root record) and each is defined at any one of its occurrences, so that an edge of the cycle is a reference
+    # from inside the definition of its target, a reference to a sibling whose definition is complete, or a forward (late-resolved)
+    # reference -- in particular cycles NO edge of which is written inside its target's definition. The verdict is the model's
+    # (Parse.parse_schema -> check_for_cycles, proved exact: C07_cycle_check_exact) and is cross-checked with the construction;
+    # the valid twins (cycle broken by a union / array / map) go through every check of a valid document
+    arrangement = {}
+    n_any = n // 2
+    tries = 0
+    while n_any > 0 and tries < 20 * n:
+        tries += 1
+        nodes, unconditional = D.cycle_graph(rng)
+        # half of the time: look (among a few spellings) for an arrangement in which no reference is written inside its own target
+        want_outside = rng.random() < 0.5
+        found = None
+        for attempt in range(10 if want_outside else 4):
+            dg = D.DocGen(rng, nodes, forward=rng.choice([0.3, 0.5, 0.7, 0.9] if want_outside else [0.0, 0.3, 0.5, 0.7, 0.9]),
+                          extras=rng.choice([0.0, 0.3]), sibling_defs=want_outside and attempt == 0)
+            doc = dg.gen(0, None)
+            if set(dg.occ) != dg.defined:
+                continue           # a late definition site was never reached
+            found = (dg, doc)
+            if not want_outside or dg.ref_kinds["inside"] == 0:
+                break
+        if found is None:
+            continue
+        dg, doc = found
+        n_any -= 1
+        arr = ("no-reference-from-inside-its-target" if dg.ref_kinds["inside"] == 0 else "some-reference-from-inside-its-target") + \
+              ("/forward" if dg.ref_kinds["forward"] else "")
+        if unconditional:
+            arrangement[len(cases)] = arr
+            cases.append(("record-cycle-any-order", nodes, doc, None, False))
+        else:
+            ref_doc = D.DocGen(rng, nodes, forward=0.0, extras=0.0).gen(0, None)
+            arrangement[len(cases)] = arr
+            cases.append(("valid", nodes, doc, ref_doc, dg.has_forward))
     texts = [D.to_text(c[2], rng) for c in cases]
     impl = C.run_parallel(C.AVRODRIVE, ["parse " + C.hx(t) for t in texts])
-    model = C.run_parallel(C.AVROMODEL, ["parse " + D.to_sx(c[2]) for c in cases])
+    # the model starts from the AST serde_json's reader produces: number tokens of free positions in serde_json's own spelling
+    model = C.run_parallel(C.AVROMODEL, ["parse " + D.to_sx(D.norm_numbers(c[2])) for c in cases])
     refm = C.run_parallel(C.AVROMODEL, ["parse " + D.to_sx(c[3]) for c in cases if c[0] == "valid"])
     built = C.run_parallel(C.AVRODRIVE, ["fp " + G.schema_sx(c[1]) for c in cases if c[0] == "valid"])
     refm, built = iter(refm), iter(built)
     violations, diffs, samples, distinct = [], [], [], set()
     from collections import Counter
     dist = Counter()
-    for (kind, nodes, doc, ref_doc, fwd), text, ri, rm in zip(cases, texts, impl, model):
+    for ci, ((kind, nodes, doc, ref_doc, fwd), text, ri, rm) in enumerate(zip(cases, texts, impl, model)):
         line = "parse " + C.hx(text)
-        mline = "parse " + D.to_sx(doc)
+        mline = "parse " + D.to_sx(D.norm_numbers(doc))
         pi, pm = C.parse_sx(ri)[0], C.parse_sx(rm)[0]
         distinct.add(D.minified(doc))
         if pi[0] in ("crash", "panic", "bad-case"):
@@ -201,7 +241,7 @@ def run(ctx):
         elif kind == "valid":
             rr = C.parse_sx(next(refm))[0]
             bb = C.parse_sx(next(built))[0]
-            dist["valid/forward-refs" if fwd else "valid"] += 1
+            dist[("valid/forward-refs" if fwd else "valid") + ("/conditional-cycle/" + arrangement[ci] if ci in arrangement else "")] += 1
             if pi[0] != "ok":
                 violations.append({"impl_case": line, "what": "a specification-valid document was rejected",
                                    "document": text[:600], "impl": ri[:300]})
@@ -230,7 +270,11 @@ def run(ctx):
             if len(samples) < 5:
                 samples.append({"document": text[:300], "canonical_form": C.unhex(pi[2]).decode("utf-8", "replace")[:300]})
         else:
-            dist["invalid/" + kind] += 1
+            dist["invalid/" + kind + ("/" + arrangement[ci] if ci in arrangement else "")] += 1
+            if kind == "record-cycle-any-order" and pm[0] != "err":
+                # the construction says some record always contains itself, the model's (exact) cycle check accepts: generator or model wrong
+                diffs.append({"impl_case": line, "model_case": mline, "impl": ri[:300], "model": rm[:300],
+                              "what": "the model accepts a document built to hold an unconditional record cycle"})
             if pi[0] == "ok":
                 # removing "type" from a field object or from an object that is not a schema leaves the document valid in rare cases
                 violations.append({"impl_case": line, "what": "an invalid document (%s) was accepted" % kind, "document": text[:800]})
@@ -241,6 +285,6 @@ def run(ctx):
                     "(forward references), member order, doc/aliases/default/order/custom attributes, whitespace and \\u escapes; oracle: H1 canonical "
                     "form = extracted PcfSpec.pcf of the schema's forward-reference-free spelling, fingerprint = that of the built graph, "
                     "attributes preserved, JSON = minified document; invalidations (unknown reference, duplicate definition, missing required "
-                    "attribute, self/mutually containing records, near-miss references = an existing simple name resolved in a namespace where it is "
+                    "attribute, self/mutually containing records -- also with the records of the cycle defined side by side (branches of a root union, sibling fields) in any order, every edge of the cycle a reference from inside its target, to a completed sibling, or forward; verdict = the model's exact cycle check --, near-miss references = an existing simple name resolved in a namespace where it is "
                     "not defined, a second definition of a fullname in another spelling) must be rejected; model vs crate: node vector, canonical form, fingerprint, JSON",
             "samples": samples, "violations": violations, "model_diffs": diffs, "distribution": dict(dist)}
